@@ -324,6 +324,11 @@ class ECU(UDSClient):
             block_length = max_block_length
         # block_length includes the service identifier and block counter; payload must be smaller
         payload_size = block_length - 2
+        if payload_size <= 0:
+            raise ValueError(
+                f"block_length {g_repr(block_length)} leaves no room for data: "
+                "two bytes are needed for the service identifier and the block counter"
+            )
         counter = 0
         for i in range(0, len(data), payload_size):
             counter += 1
